@@ -5,6 +5,7 @@ use mzkh::Ctx;
 
 mod acc;
 mod aggregator;
+mod carry;
 mod gadget;
 mod ipa;
 mod verify;
@@ -156,6 +157,10 @@ fn main() {
         let n = if ctx.quick() { 60 } else { 400 };
         acc::run(&mut ctx, n);
     }
+    if only.as_deref().map_or(true, |o| o == "carry") {
+        // accumulators carried into a circuit (AssignedAccumulator::assign) and the IVC step
+        carry::run(&mut ctx);
+    }
     if only.as_deref().map_or(true, |o| o == "gadget") {
         run_gadget(&mut ctx);
     }
@@ -171,6 +176,12 @@ fn main() {
         aggregator::run::<2>(&mut ctx, false, 15, 902, nc);
         let sha3 = !ctx.quick();
         aggregator::run::<3>(&mut ctx, sha3, 15, 903, nc);
+        // layout of the aggregator on the dummy inner circuit: 12 fixed columns (two-digit names),
+        // k = 1, 2, 3 inner proofs; then a key with a fixed commitment that is never opened
+        aggregator::run_dummy::<1>(&mut ctx, 12, 3, 0, 14, 911, nc);
+        aggregator::run_dummy::<2>(&mut ctx, 12, 3, 0, 14, 912, nc);
+        aggregator::run_dummy::<3>(&mut ctx, 3, 11, 0, 14, 913, nc);
+        aggregator::run_dummy::<1>(&mut ctx, 3, 3, 1, 14, 914, nc);
         if !ctx.quick() {
             aggregator::run::<1>(&mut ctx, true, 15, 904, nc);
             aggregator::run::<2>(&mut ctx, true, 15, 905, nc);
